@@ -473,9 +473,13 @@ class SafeCall:
     def __init__(self, func):
         self.func = func
 
+    timeouts = 0      # per process: after a few cases that do not finish, the rest of this worker's share is not attempted
+
     def __call__(self, case):
         import signal
-        limit = int(os.environ.get("VERIF_CASE_TIMEOUT_S", "120"))
+        limit = int(os.environ.get("VERIF_CASE_TIMEOUT_S", "45"))
+        if SafeCall.timeouts >= 3:
+            return {"__impl_error__": "not attempted: three earlier cases of this worker did not finish within the time limit"}
 
         def on_alarm(signum, frame):
             raise TimeoutError(f"the implementation did not finish this case within {limit} s")
@@ -489,6 +493,8 @@ class SafeCall:
             return self.func(case)
         except Exception as exc:  # noqa
             import traceback
+            if isinstance(exc, TimeoutError):
+                SafeCall.timeouts += 1
             return {"__impl_error__": f"{type(exc).__name__}: {exc}"[:300], "where": traceback.format_exc()[-600:]}
         finally:
             if old is not None:
